@@ -716,6 +716,7 @@ func (s *c07Scenario) retryAfterRejection(first *c07Run1, v1 *refmodel.AttVerdic
 	r := s.serve(first.cl, "", nil)
 	c.Obs("get_calls", 1)
 	c.Obs("retries_after_rejection", 1)
+	c.Evals(1)
 	method, why := methodOfMut, mk
 	if len(v1.MustErr) > 0 {
 		method, why = v1.MustErr[0].Method, v1.MustErr[0].Kind
